@@ -56,6 +56,13 @@ class P(explore.Problem):
                 a = f'{sh}!{W.rc_cell(c1, r1)}:{W.rc_cell(c2, r2)}'
                 grid = [[f'{sh}!{W.rc_cell(c, r)}' for c in range(c1, c2 + 1)] for r in range(r1, r2 + 1)]
                 self.paths['range ' + a] = ('addr', a, trim(grid))
+                if sh == active and (c1, r1) == (1, 1) and (c2 == mc_ or r2 == mr):
+                    self.paths['sheetless range ' + a] = ('addr', a.split('!')[1], trim(grid))
+            if sh == active:
+                grid = [[f'{sh}!A{r}'] for r in range(1, mr + 1)]
+                self.paths['sheetless col A:A'] = ('addr', 'A:A', trim(grid))
+                grid = [[f'{sh}!{W.rc_cell(c, 1)}' for c in range(1, mc_ + 1)]]
+                self.paths['sheetless row 1:1'] = ('addr', '1:1', trim(grid))
             for c in range(1, mc_ + 1):
                 L = W.get_column_letter(c)
                 grid = [[f'{sh}!{L}{r}'] for r in range(1, mr + 1)]
